@@ -7,7 +7,10 @@
    script for the Rust engine.
    Part (ii): all builder field-presence subsets of BOLT-11 invoices and BOLT-12 offers /
    refunds, printed as CASE directives; the mutation classes and every combination of parse
-   observations the table allows are stepped through. *)
+   observations the table allows are stepped through.
+   Part (iii): boundary values of every numeric builder input (all combinations), printed as CASE
+   directives with the numbers; whether the builder must accept / must refuse them is judged on
+   the real answer by the trace spec. *)
 EXTENDS PayReq, Json
 
 CONSTANTS MaxObjs, MaxRoots, MaxAlters
@@ -106,38 +109,84 @@ B12Pres == [root : {"offer", "refund"}, mode : {"explicit", "explicitmd", "meta"
             chain : {"default", "testnet", "two"}, amt : {"none", "some", "max"},
             desc : BOOLEAN, expiry : BOOLEAN, issuer : BOOLEAN, paths : 0..2,
             qty : {"one", "bounded", "unbounded"}]
-\* what the builders accept: derived signing keys need a blinded path, metadata-derived means none;
-\* a refund always has an amount and a description and at most one chain
-B12Valid(p) ==
-  /\ (p.mode = "path") => p.paths > 0
-  /\ (p.mode = "meta") => p.paths = 0
-  /\ (p.root = "refund") => p.amt # "none" /\ p.desc /\ p.chain # "two"
+\* B12Valid (PayReq): the presence subsets the BOLT-12 builders accept
 
 Bools == BOOLEAN
 Obs11 == [parsed : Bools, payee_eq : Bools, signed_eq : Bools, has_n : Bools]
 
-MCase11 ==
-  /\ objs = <<>> /\ tc.fmt = "none" /\ last.op = "none"
-  /\ \E p \in B11Pres : CaseBuild("b11") /\ hist' = <<[fmt |-> "b11", pres |-> p]>>
-MCase12 ==
-  /\ objs = <<>> /\ tc.fmt = "none" /\ last.op = "none"
-  /\ \E p \in B12Pres : B12Valid(p) /\ CaseBuild("b12") /\ hist' = <<[fmt |-> "b12", pres |-> p]>>
-MRoundTrip == \E k \in {"b11"} \cup B12Kinds :
-  /\ tc.stage = "built"
-  /\ CaseRoundTrip(k, [parsed |-> TRUE, equal |-> TRUE, acc |-> TRUE, reser |-> TRUE])
-  /\ UNCHANGED hist
 \* the verdict table does not depend on the presence subset: step through it for one subset of each format
 Canon11 == [amt |-> "none", desc |-> "direct", expiry |-> "none", fb |-> 0, routes |-> 0,
             payee |-> "recovered", meta |-> "none", mpp |-> FALSE]
 Canon12 == [root |-> "offer", mode |-> "explicit", chain |-> "default", amt |-> "none", desc |-> FALSE,
             expiry |-> FALSE, issuer |-> FALSE, paths |-> 0, qty |-> "one"]
-MMutate11 == \E c \in B11Classes, o \in Obs11 :
-  tc.fmt = "b11" /\ hist[1].pres = Canon11 /\ CaseMutate11(c, o) /\ UNCHANGED hist
-MMutate12 == \E k \in B12Kinds, b \in Bools :
-  tc.fmt = "b12" /\ hist[1].pres = Canon12 /\ CaseMutate12(k, b) /\ UNCHANGED hist
+\* the numbers a presence case is run with are chosen (seeded, admissible) by the engine and judged
+\* by the trace spec; here: ordinary ones
+Ord11 == [ts |-> <<0, 1, 700000000>>, expiry |-> <<0, 0, 3600>>, cltv |-> <<0, 0, 18>>,
+          amt |-> <<0, 0, 2500000>>, desc |-> 12]
+Ord12 == [amt |-> <<0, 0, 2500000>>, qty |-> NoNum, aexp |-> NoNum]
+OrdI12 == [created |-> <<0, 1, 790000000>>, rexp |-> NoNum]
+Free == objs = <<>> /\ tc.fmt = "none" /\ last.op = "none"
 
+MCase11 ==
+  /\ Free
+  /\ \E p \in B11Pres : CaseBuild11(Ord11, TRUE) /\ hist' = <<[fmt |-> "b11", pres |-> p]>>
+MCase12 ==
+  /\ Free
+  /\ \E p \in B12Pres : B12Valid(p) /\ CaseBuild12(p, TRUE) /\ hist' = <<[fmt |-> "b12", pres |-> p]>>
+
+(* part (iii): boundary values of every numeric field, all combinations *)
+U64Points(ord) == {Zero, One, ord, MaxU32, Succ(MaxU32)} \cup Around(MaxU64)
+B11Vals == [ts : {Zero, One, Ord11.ts, MaxU64} \cup Around(MaxTimestamp),
+            expiry : {NoNum} \cup U64Points(Ord11.expiry),
+            cltv : U64Points(Ord11.cltv),
+            amt : {NoNum, Zero, One, Ord11.amt, MaxU64} \cup Around(MaxMsat11),
+            desc : {0 - 1, 0, 1, Ord11.desc, MaxDescBytes - 1, MaxDescBytes, MaxDescBytes + 1}]
+B12Vals == [root : {"offer", "refund"},
+            amt : {NoNum, Zero, One, Ord12.amt, MaxU64} \cup Around(MaxValueMsat),
+            qty : {NoNum, Zero, One, <<0, 0, 2>>, Pred(MaxU64), MaxU64},
+            aexp : {NoNum, Zero, One, <<0, 4, 0>>, Pred(MaxU64), MaxU64}]
+I12Vals == [created : {Zero, One, OrdI12.created} \cup Around(MaxU32) \cup {Pred(MaxU64), MaxU64},
+            rexp : {NoNum, Zero, One, <<0, 0, 7200>>} \cup Around(MaxU32)]
+\* number of fields off their ordinary value (the check runs all cases with few, samples the rest)
+Off(v, ord) == Cardinality({f \in DOMAIN ord : v[f] # ord[f]})
+
+NumCase(fmt, v, off) == hist' = <<[fmt |-> fmt, vals |-> v, off |-> off]>>
+MCaseNum11Built == Free /\ \E v \in B11Vals :
+  CaseBuild11(v, TRUE) /\ NumCase("n11", v, Off(v, Ord11))
+MCaseNum11Refused == Free /\ \E v \in B11Vals :
+  CaseBuild11(v, FALSE) /\ NumCase("n11", v, Off(v, Ord11))
+MCaseNum12Built == Free /\ \E v \in B12Vals : IsB12Input(v) /\
+  CaseBuildNum12(v, TRUE) /\ NumCase("n12", v, Off(v, Ord12))
+MCaseNum12Refused == Free /\ \E v \in B12Vals : IsB12Input(v) /\
+  CaseBuildNum12(v, FALSE) /\ NumCase("n12", v, Off(v, Ord12))
+MCaseInv12 == Free /\ \E v \in I12Vals :
+  CaseBuildInv12(v, TRUE) /\ NumCase("i12", v, Off(v, OrdI12))
+\* an assembled string / stream: any observation the table allows, for ordinary numbers
+ObsA == [canon : Bools, parsed : Bools, reser : Bools, signer_eq : Bools, got : {Ord11, [Ord11 EXCEPT !.ts = Zero]}]
+MAssembled == \E o \in ObsA :
+  tc.fmt = "b11" /\ hist[1].fmt = "b11" /\ hist[1].pres = Canon11 /\ CaseAssembled(Ord11, o) /\ UNCHANGED hist
+MExposed ==
+  tc.fmt = "b11" /\ hist[1].fmt = "b11" /\ hist[1].pres = Canon11 /\ CaseExposed(Ord11) /\ UNCHANGED hist
+MRoundTrip == \E k \in {"b11"} \cup B12Kinds :
+  /\ tc.stage = "built"
+  /\ CaseRoundTrip(k, [parsed |-> TRUE, equal |-> TRUE, acc |-> TRUE, reser |-> TRUE])
+  /\ UNCHANGED hist
+MMutate11 == \E c \in B11Classes, o \in Obs11 :
+  tc.fmt = "b11" /\ hist[1].fmt = "b11" /\ hist[1].pres = Canon11 /\ CaseMutate11(c, o) /\ UNCHANGED hist
+MMutate12 == \E k \in B12Kinds, b \in Bools :
+  tc.fmt = "b12" /\ hist[1].fmt = "b12" /\ hist[1].pres = Canon12 /\ CaseMutate12(k, b) /\ UNCHANGED hist
+
+\* a refused case is a case too (tc.fmt = "refused")
 EmitCases ==
-  (tc.stage = "built") => PrintT(<<"CASE", ToJson(hist[1])>>)
+  ((tc.stage = "built" \/ tc.fmt = "refused") /\ Len(hist) = 1) => PrintT(<<"CASE", ToJson(hist[1])>>)
+
+\* the admissibility rules are consistent and both answers occur among the enumerated inputs
+ASSUME AdmissibleSane ==
+  /\ \A v \in B11Vals : ~(B11MustAccept(v) /\ B11MustRefuse(v))
+  /\ B11MustAccept(Ord11) /\ B11MustAccept([Ord11 EXCEPT !.ts = MaxTimestamp])
+  /\ B11MustRefuse([Ord11 EXCEPT !.ts = Succ(MaxTimestamp)])
+  /\ Succ(Pred(MaxU64)) = MaxU64 /\ Pred(Succ(MaxU32)) = MaxU32 /\ Lt(MaxU32, MaxTimestamp)
+  /\ Lt(MaxTimestamp, MaxMsat11) /\ Lt(MaxMsat11, MaxValueMsat) /\ Lt(MaxValueMsat, MaxU64)
 
 \* table sanity: no allowed BOLT-11 observation keeps the holder's name on altered content
 NoForgery11 == \A c \in B11Classes, o \in Obs11 :
@@ -148,6 +197,8 @@ MCNext == \/ MCreateOffer \/ MCreateRefund \/ MAlter \/ MRequest \/ MRespond \/ 
           \/ MVerifyReqAccept \/ MVerifyReqRefuseAltered \/ MVerifyReqRefuseOther
           \/ MVerifyInvAccept \/ MVerifyInvRefuseAltered \/ MVerifyInvRefuseOther \/ MVerifyReturn
           \/ MCase11 \/ MCase12 \/ MRoundTrip \/ MMutate11 \/ MMutate12
+          \/ MCaseNum11Built \/ MCaseNum11Refused \/ MCaseNum12Built \/ MCaseNum12Refused
+          \/ MCaseInv12 \/ MAssembled \/ MExposed
 
 MCSpec == MCInit /\ [][MCNext]_mvars
 
